@@ -140,7 +140,8 @@ def root_development(
         dZr = Zr - ZrOld
 
         # Adjust expansion rate for presence of restrictive soil horizons
-        if Zr > Crop.Zmin:
+        def restricted_depth(Zr):
+            # Depth reached by roots whose unrestricted depth would be Zr
             layeri = 1
             l_idx = np.argwhere(prof.Layer == layeri).flatten()
             Zsoil = prof.dz[l_idx].sum()
@@ -175,8 +176,15 @@ def root_development(
                     Zsoil = Zsoil + soil_layer_dz
                     deltaZ = soil_layer_dz
 
+            return ZrOUT
+
+        if Zr > Crop.Zmin:
             # Correct Zr and dZr for effects of restrictive horizons
-            Zr = ZrOUT
+            Zr = restricted_depth(Zr)
+            if (ZrOld > Crop.Zmin) and (prof.Penetrability < 100).any():
+                # yesterday's potential depth was restricted in the same way
+                # (otherwise the daily increment becomes negative)
+                ZrOld = restricted_depth(ZrOld)
             dZr = Zr - ZrOld
 
         # Adjust rate of expansion for any stomatal water stress
